@@ -337,7 +337,7 @@ def r4(F, R):
         sl = b.slice([], control=True, start_bb=bb)
         need_fields = {"log_size", "is_main"}
         rng_calls = [c for c in sl["calls"] if strip_generics(c).startswith("rand::")]
-        log_roots = {a for (a, names) in sl["args"] if "log_size" in names}
+        log_roots = {a for (a, names) in sl["roots"] if "log_size" in names}      # the trees (parameters or locals) whose weight is read
         miss = []
         if not need_fields <= sl["fields"]:
             miss.append("fields %s" % sorted(need_fields - sl["fields"]))
